@@ -71,8 +71,8 @@ Wake(c) ==
             /\ Do(PopAct(c, cany[c]))
             /\ cres' = [cres EXCEPT ![c] = r]
             /\ cst' = [cst EXCEPT ![c] = "idle"]
+            /\ cany' = [cany EXCEPT ![c] = FALSE]
             /\ last' = [a |-> [op |-> "wake", c |-> c], r |-> r]
-            /\ UNCHANGED cany
      ELSE /\ cst' = [cst EXCEPT ![c] = "parked"]
           /\ last' = [a |-> [op |-> "wake", c |-> c], r |-> R("parked", 0)]
           /\ UNCHANGED <<qvars, cany, cres>>
@@ -115,5 +115,5 @@ NothingLeftBeside == (Stable /\ Parked # {}) => SeqSet(out) = HistItems
 CloseReleases == closed ~> (\A c \in Cons : cst[c] = "idle")
 ItemsDelivered == \A c \in Cons : (cst[c] = "woken") ~> (cst[c] # "woken")
 
-WView == wvars
+WView == <<qvars, cst, cany>>        \* cres is output only
 =============================================================================
